@@ -16,10 +16,10 @@ MRTS_T = [0.0, 0.5 * U, U, 2 * U, 3 * U, 4 * U, 6 * U, 8 * U, 16 * U, 40 * U]
 
 def plan(tier):
     if tier == "quick":
-        regimes = [("dense", 1, 5), ("bounded", 3, 6, 8), ("near", 2, 3)]
+        regimes = [("dense", 1, 5), ("bounded", 3, 6, 8), ("near", 2, 3), ("far", 1, 4)]
         menu = MRTS_Q
     else:
-        regimes = [("dense", 1, 8), ("bounded", 3, 9, 12), ("near", 2, 4)]
+        regimes = [("dense", 1, 8), ("bounded", 3, 9, 12), ("near", 2, 4), ("far", 1, 6)]
         menu = MRTS_T
     desc, total = pairs.describe_regimes(regimes, 2)
     return {
